@@ -282,7 +282,7 @@ func runC20(r *core.Run) {
 	r.Assumptions = []string{"refcolor Gauss-Jordan inverse and naive products as reference", "exact singularity relies on amd64 not fusing multiply-add (Go does not on amd64)"}
 	ntri, nmat, nsing := 20000, 50000, 3000
 	if r.Thorough() {
-		ntri, nmat, nsing = 100_000_000, 200_000_000, 10_000_000
+		ntri, nmat, nsing = 400_000_000, 800_000_000, 40_000_000
 	}
 	worstPub := 0.0
 	for i, s := range c20Published {
